@@ -56,7 +56,7 @@ def index_interval(idx: Rat, length_of: Callable[[Rat], Rat]) -> Optional[Tuple[
             return C(c), n.sub(C(1)).add(C(c)), f"{a.name} over a slice of length {n}: [0, {n}-1] shifted by {c}"
         Lx = length_of(X)
         return C(c), Lx.sub(C(1)).add(C(c)), f"{a.name} over the whole vector of length {Lx}: [0, {Lx}-1] shifted by {c}"
-    if a.kind == "fn" and a.name == "int":
+    if a.kind == "fn" and a.name in ("int", "floor"):
         inner = a.args[0]
         # int(L / 2)  with integer L >= 3  lies in [1, L - 2]
         two = inner.mul(C(2))
